@@ -3,6 +3,7 @@
 package gen
 
 import (
+	"fmt"
 	"math/big"
 
 	"pgregory.net/rapid"
@@ -232,4 +233,68 @@ func Int(t *rapid.T, r *big.Int, maxBits int, label string) (*big.Int, string) {
 		cls = "neg_" + cls
 	}
 	return v, cls
+}
+
+// MontRoundPair draws operands (canonical values) whose MONTGOMERY limbs are built so that the first
+// reduction round of a word-by-word Montgomery product x*y uses a chosen multiplier
+// m = lo(x0*y0)*(-q0^-1) mod 2^w: y has lowest stored limb 1, x has lowest stored limb -m*q0 mod 2^w,
+// with m from {0, 1, 2^w-1, 2^(w-1), -q_j^-1 mod 2^w for every odd limb q_j of q, q_j}; the other
+// limbs come from the limb lattice. These are the carry boundaries of the m*q accumulation (e.g.
+// lo(m*q_j) = 2^w-1), which uniform operands hit with probability 2^-w.
+func (s FieldSpec) MontRoundPair(t *rapid.T, label string) (x, y *big.Int, cls string) {
+	w := uint(s.LimbBits)
+	mod := new(big.Int).Lsh(bi(1), w)
+	mask := new(big.Int).Sub(mod, bi(1))
+	limbQ := func(j int) *big.Int { return new(big.Int).And(new(big.Int).Rsh(s.Q, uint(j)*w), mask) }
+	q0 := limbQ(0)
+	var targets []*big.Int
+	var names []string
+	add := func(v *big.Int, n string) {
+		targets = append(targets, new(big.Int).And(v, mask))
+		names = append(names, n)
+	}
+	add(bi(0), "m=0")
+	add(bi(1), "m=1")
+	add(mask, "m=2^w-1")
+	add(new(big.Int).Lsh(bi(1), w-1), "m=2^(w-1)")
+	for j := 0; j < s.NLimbs; j++ {
+		qj := limbQ(j)
+		add(qj, fmt.Sprintf("m=q%d", j))
+		if qj.Bit(0) == 1 {
+			inv := new(big.Int).ModInverse(qj, mod)
+			add(new(big.Int).Sub(mod, inv), fmt.Sprintf("m=-1/q%d", j))
+			add(inv, fmt.Sprintf("m=1/q%d", j))
+		}
+	}
+	k := rapid.IntRange(0, len(targets)-1).Draw(t, label+"m")
+	m := targets[k]
+	// x0 = -m*q0 mod 2^w
+	x0 := new(big.Int).Mul(m, q0)
+	x0.Neg(x0).Mod(x0, mod)
+	build := func(low *big.Int, lab string) *big.Int {
+		raw := new(big.Int)
+		for i := s.NLimbs - 1; i >= 1; i-- {
+			l := s.limb(t, i, lab)
+			if i == s.NLimbs-1 { // keep the stored value below q without touching the low limb
+				top := limbQ(i)
+				if l.Cmp(top) >= 0 {
+					l = new(big.Int).Sub(top, bi(1))
+					if l.Sign() < 0 {
+						l = bi(0)
+					}
+				}
+			}
+			raw.Lsh(raw, w).Or(raw, l)
+		}
+		raw.Lsh(raw, w).Or(raw, low)
+		if raw.Cmp(s.Q) >= 0 { // single-limb fields: fall back to a reduced value (class label says so)
+			raw.Mod(raw, s.Q)
+			cls = "reduced:"
+		}
+		// canonical value = raw * R^-1
+		return raw.Mod(raw.Mul(raw, s.rinv()), s.Q)
+	}
+	x = build(x0, label+"x")
+	y = build(bi(1), label+"y")
+	return x, y, "montround:" + cls + names[k]
 }
